@@ -127,7 +127,7 @@ def main():
             na.append({'property_id': pid, 'reason': NOT_YET.get(pid, 'check designed in DESIGN.md section 3 but not yet built in this tree; not claimed until it is')})
     m = {
         'version': 1,
-        'setup_cmd': '/venv/bin/python -c "import hypothesis, mpmath" || /venv/bin/pip install --no-index --find-links /opt/veriftools/wheels hypothesis mpmath',
+        'setup_cmd': '(/venv/bin/python -c "import hypothesis, mpmath" || /venv/bin/pip install --no-index --find-links /opt/veriftools/wheels hypothesis mpmath) && (/venv/bin/pip install -q --no-index --find-links /opt/veriftools/wheels --target /verif/.deps atheris || echo "atheris not installed: the supplementary fuzz campaign of C02/C10 thorough is skipped")',
         'hooks': {'guard': 'RVANVENETIE_STBEM_VERIF', 'enable': 'no source hooks: the checks import /repo\'s working tree as is (pure Python) and set RVANVENETIE_STBEM_VERIF=1 for completeness',
                   'baseline_off_cmd': 'cd /repo && /venv/bin/python -m pytest -ra -q -p no:cacheprovider --timeout=900 --continue-on-collection-errors',
                   'source_commits': [], 'add_only': True},
